@@ -34,8 +34,11 @@ RULE = (
     "that every present source carries a different valid value; all assignments for two-valued kinds) x spellings "
     "(ints base 2/8/10/16, hex bytes, ranges, 2-D ranges, enums by name/value/hex value, URIs, paths, --x/--no-x, "
     "const form, short flag, multi-token lists); + the present-but-empty value \"\" in each source for every option "
-    "whose type accepts it (alone and above non-empty lower sources); + one invalid value per source as the effective source; + JSON "
-    "round trip of every accepted config; + META.json/Rerunner and run_meta(DB) re-load per command; + --template "
+    "whose type accepts it (alone and above non-empty lower sources); + one invalid value per source as the effective source; "
+    "+ a value of every TOML shape (inline table, sub-section, array, nested array, bool, float, int, string) at the key of "
+    "every file-configurable option: used as the model coerces it or rejected naming the file, never ignored; + JSON "
+    "round trip of every accepted config; + META.json/Rerunner and run_meta(DB) re-load per command, in-process and "
+    "(META.json) by gallia's Rerunner in a fresh interpreter, stored key set == model fields, META.json == DB; + --template "
     "keys. evaluation = one parse (or one reload/template key) judged by the oracle; non-trivial = distinct "
     "(command, option, set of providing sources, winning source, value, spelling) with at least one non-default source"
 )
@@ -452,7 +455,7 @@ def run_case(
     if shape is not None and invalid is not None:
         rp["invalid"] = ["file", "<shape>"]
     try:
-        ck = (path, repr(sorted(file_entries.items())), repr(sorted(env.items())))
+        ck = (path, M.toml_doc(file_entries), repr(sorted(env.items())))
         if G.get("parser_cache", (None, None))[0] == ck:
             parser = G["parser_cache"][1]
         else:
@@ -842,6 +845,28 @@ def run_command(path: tuple[str, ...], tier: str) -> Result:
         SHM.mkdir(parents=True, exist_ok=True)
         meta = SHM / "META.json"
         meta.write_text(meta_text + "\n")
+        fields = set(cmd.CONFIG_TYPE.model_fields)
+        full_doc = json.loads(cfg.model_dump_json())
+        stored: dict[str, Any] = {"file": json.loads(meta_text).get("config")}
+        G["db_doc"] = None
+        # (b) a later *process* re-creates the run from META.json: defaults that are evaluated per process / platform
+        # (random seed, platform switches) must come out as the original run had them
+        res.count("evaluations")
+        res.count("rerun_fresh_process")
+        fresh = _rerun_fresh_process(meta)
+        if "error" in fresh:
+            res.violate(f"C18|rerun|fresh-process|fails|{fresh['error'].split(':')[0]}", f"re-creating {' '.join(path)} from META.json in a fresh interpreter failed: {fresh['error']} {where}", rp)
+        else:
+            kinds = {o.name: o.kind.label() for o in G["opts"][path]}
+            if fresh["command"] != f"{cmd.__module__}.{cmd.__name__}":
+                res.violate("C18|rerun|fresh-process|wrong-command", f"fresh interpreter re-created {fresh['command']} instead of {cmd.__name__} {where}", rp)
+            for n in sorted(fields):
+                if fresh["config"].get(n, "<absent>") != full_doc.get(n, "<absent>"):
+                    res.violate(
+                        f"C18|rerun|fresh-process|value-changed|{kinds.get(n, n)}",
+                        f"{' '.join(path)} field {n}: the run had {full_doc.get(n)!r}, a fresh interpreter re-creates {fresh['config'].get(n)!r} from META.json {where}",
+                        rp,
+                    )
         for via in ("file", "db"):
             captured.clear()
             res.count("evaluations")
@@ -882,7 +907,66 @@ def run_command(path: tuple[str, ...], tier: str) -> Result:
                 if not M.equal_config_value(a, b):
                     res.violate(f"C18|rerun|{via}|value-changed|{kinds.get(n, n)}", f"{' '.join(path)} field {n}: {M.canon(a)!r} re-run with {M.canon(b)!r} {where}", rp)
             res.seen("nontrivial", ("rerun", via, tuple(path), label))
+        # (a) what is stored names every field of the config model (also those left at their defaults); (c) both stores agree
+        stored["db"] = G.get("db_doc")
+        for via, doc in stored.items():
+            res.count("evaluations")
+            res.count("stored_configs_checked")
+            if not isinstance(doc, dict):
+                res.violate(f"C18|rerun|{via}|stored-config-missing", f"no config stored via {via} for {' '.join(path)} {where}", rp)
+                continue
+            missing, extra = sorted(fields - set(doc)), sorted(set(doc) - fields)
+            if missing or extra:
+                res.violate(
+                    f"C18|rerun|{via}|stored-config-incomplete",
+                    f"{' '.join(path)}: config stored via {via} lacks {len(missing)} of {len(fields)} fields {missing[:6]} (unknown keys: {extra[:3]}) {where}",
+                    rp,
+                )
+        if isinstance(stored["file"], dict) and isinstance(stored["db"], dict):
+            res.count("evaluations")
+            res.count("meta_db_compared")
+            if stored["file"] != stored["db"]:
+                diff = sorted(k for k in set(stored["file"]) | set(stored["db"]) if stored["file"].get(k, "<absent>") != stored["db"].get(k, "<absent>"))
+                res.violate("C18|rerun|meta-json-differs-from-db", f"{' '.join(path)}: META.json config and run_meta.config differ in {diff[:8]} {where}", rp)
     return res
+
+
+_FRESH = r"""
+import asyncio, json, sys
+import gallia.command
+from gallia.command.base import BaseCommand
+from gallia.commands.script.rerun import Rerunner, RerunnerConfig
+out = {}
+async def entry_point(self):
+    out["command"] = f"{type(self).__module__}.{type(self).__name__}"
+    out["config"] = json.loads(self.config.model_dump_json())
+    return 0
+BaseCommand.entry_point = entry_point
+try:
+    try:
+        asyncio.run(Rerunner(RerunnerConfig(file=sys.argv[1])).main())
+    except SystemExit as e:
+        if e.code not in (0, None):
+            out["error"] = f"SystemExit: {e.code}"
+except BaseException as e:
+    out["error"] = f"{type(e).__name__}: {str(e)[:300]}"
+if "config" not in out and "error" not in out:
+    out["error"] = "NotStarted: command was not started"
+print("\n" + json.dumps(out))
+"""
+
+
+def _rerun_fresh_process(meta: Path) -> dict[str, Any]:
+    """gallia's own Rerunner on the META.json, in a new interpreter (same tree, same environment)"""
+    import subprocess
+    import sys
+
+    p = subprocess.run([sys.executable, "-c", _FRESH, str(meta)], capture_output=True, text=True, timeout=300, check=False)  # noqa: S603
+    last = p.stdout.strip().splitlines()[-1:] or [""]
+    try:
+        return json.loads(last[0])  # type: ignore[no-any-return]
+    except ValueError:
+        raise Broken(f"fresh interpreter gave no result: rc={p.returncode} {p.stderr[-400:]}") from None
 
 
 async def _rerun_via_db(inst: Any, cfg: Any) -> str:
@@ -898,6 +982,10 @@ async def _rerun_via_db(inst: Any, cfg: Any) -> str:
     await h.connect()
     try:
         await h.insert_run_meta(script=inst.run_meta.command, config=cfg, start_time=datetime.now(UTC).astimezone(), path=None)
+        assert h.connection is not None
+        cur = await h.connection.execute("SELECT config FROM run_meta WHERE id = ?", (h.meta,))
+        row = await cur.fetchone()
+        G["db_doc"] = json.loads(row[0]) if row is not None else None
         rr = Rerunner(RerunnerConfig(id=h.meta, db=db))
         rr.db_handler = h
         try:
@@ -1207,6 +1295,10 @@ def finish(merged: Result, tier: str) -> dict[str, Any]:
         raise Broken("vacuous: rerun hardly exercised")
     if c.get("invalid_cases", 0) < 1500 or c.get("template_keys", 0) < 500 or c.get("registry_keys", 0) < 20:
         raise Broken("vacuous: invalid value / template clauses hardly exercised")
+    if c.get("file_shape_cases", 0) < 3000 or c.get("file_shape_invalid", 0) < 1000 or c.get("file_shape_valid", 0) < 500:
+        raise Broken(f"vacuous: TOML shape cases {c.get('file_shape_cases', 0)} (invalid {c.get('file_shape_invalid', 0)}, used {c.get('file_shape_valid', 0)})")
+    if c.get("rerun_fresh_process", 0) < 30 or c.get("stored_configs_checked", 0) < 60 or c.get("meta_db_compared", 0) < 30:
+        raise Broken("vacuous: fresh-process rerun / stored config clauses hardly exercised")
     if c.get("empty_value_cases", 0) < 1000:
         raise Broken(f"vacuous: only {c.get('empty_value_cases', 0)} present-but-empty value cases evaluated")
     if c.get("required_missing_cases", 0) < 30 or c.get("mixed_cases", 0) + c.get("mixed_attempts", 0) < 60:
